@@ -162,8 +162,13 @@ def run(cx):
 
     def edge_sym(a, b, subj, labels, o):
         s = strip_identity(subj)
-        if s[0] == "call" and name_matches(s[1], f"{INNER}::simultaneous_dial_tie_breaking"):
-            return "tb=" + "|".join(sorted(labels))
+        neg = False
+        while s[0] == "unop" and s[1] == "Not":          # `let keep_existing = !tie_break(..); if keep_existing ..`
+            neg = not neg
+            s = strip_identity(s[2])
+        if s[0] == "call" and name_matches(s[1], f"{INNER}::simultaneous_dial_tie_breaking") and labels in ({"true"}, {"false"}):
+            return "tb=" + ("true" if (labels == {"true"}) != neg else "false")
+        s = strip_identity(subj)
         if s[0] == "discr":
             u = strip_identity(s[1])
             if u[0] == "call" and name_matches(u[1], "HashMap::entry"):
